@@ -777,6 +777,21 @@ void relay_threaded_case(Ctx& c, Rng& r, bool resources) {
             for (auto& [fd, sp] : server.sessions_) { (void)sp; outq(fd); }
             return total;
         };
+        auto dump_sockets = [&] {
+            std::string o;
+            for (auto& x : cl) {
+                int q = 0, a = 0;
+                if (x.fd >= 0) { ioctl(x.fd, TIOCOUTQ, &q); ioctl(x.fd, FIONREAD, &a); }
+                o += "c" + std::to_string(x.idx) + "[role" + std::to_string(x.role) + " fd" + std::to_string(x.fd) + " outq" + std::to_string(q) + " inq" + std::to_string(a) + " eof" + std::to_string(x.saw_eof) + " ok" + std::to_string(x.reply_ok) + " sent" + std::to_string(x.sent.size()) + " end" + std::to_string(x.sent_end) + "] ";
+            }
+            for (auto& [fd, sp] : server.sessions_) {
+                int q = 0, a = 0;
+                ioctl(fd, TIOCOUTQ, &q); ioctl(fd, FIONREAD, &a);
+                auto pp = sp->partner.lock();
+                o += "s" + std::to_string(fd) + "[state" + std::to_string(static_cast<int>(sp->state)) + " outq" + std::to_string(q) + " inq" + std::to_string(a) + " wb" + std::to_string(sp->write_buffer.size()) + " rb" + std::to_string(sp->read_buffer.size()) + " partner" + std::to_string(pp ? pp->fd : -1) + " closing" + std::to_string(sp->closing) + "] ";
+            }
+            return o;
+        };
         bool delivery_timeout = false;
         auto drain = [&] {
             int idle_waits = 0;
@@ -857,7 +872,8 @@ void relay_threaded_case(Ctx& c, Rng& r, bool resources) {
                     if (ntok != cl[y].sent.size() || cl[x].rx.find(t_end(cl[y])) == std::string::npos)
                         c.violation("C25:delivery:bridged-bytes-lost-or-reordered", J().kv("from", y).kv("to", x).kv("sent", cl[y].sent.size()).kv("received", ntok).kv("mode", "threaded")
                                         .kv("receiver_saw_eof", cl[x].saw_eof).kv("receiver_errno", cl[x].eof_errno).kv("sender_saw_eof", cl[y].saw_eof).kv("sender_errno", cl[y].eof_errno)
-                                        .kv("clients", n).kv("sessions_left", server.sessions_.size()).str());
+                                        .kv("clients", n).kv("sessions_left", server.sessions_.size()).kv("socket_state", dump_sockets())
+                                        .kv("receiver_rx_bytes", cl[x].rx.size()).kv("receiver_rx_tail", cl[x].rx.substr(cl[x].rx.size() > 120 ? cl[x].rx.size() - 120 : 0)).str());
                 }
                 if (x < y) ++bridges;
             }
